@@ -335,3 +335,15 @@ func H_M1_many_required() {
 		nd.Assert(skip == 0, "validator never reports a partial message as initialized")
 	}
 }
+
+//verif:props=C06 bounds=VAll2(enum,uint32,int64,sint64,fixed64,sfixed32,float-pointers);tag-byte+complete-payload-of-every-wire-type maxsteps=8000000
+func H_M1_field_all2() { mDecodeChecks(10, mOneFieldBytes(0)) }
+
+//verif:props=C06 bounds=VAll3(10-implicit-presence-kinds);tag-byte+complete-payload-of-every-wire-type maxsteps=8000000
+func H_M1_field_all3() { mDecodeChecks(11, mOneFieldBytes(0)) }
+
+//verif:props=C06 bounds=VAllRep(13-unpacked-repeated-kinds);tag-byte+complete-payload(packed-payloads-0..4(quick)/+8(thorough)-bytes) maxsteps=8000000 deadline=900
+func H_M1_field_allrep() { mDecodeChecks(12, mOneFieldBytesPacked()) }
+
+//verif:props=C06 bounds=VAllPacked(10-packed-kinds);tag-byte+complete-payload(packed-payloads-0..4(quick)/+8(thorough)-bytes) maxsteps=8000000 deadline=900
+func H_M1_field_allpacked() { mDecodeChecks(13, mOneFieldBytesPacked()) }
